@@ -68,6 +68,13 @@ def zero(cell):
                 # known finding: the iteration starts from the stored zero; if THAT trajectory cannot reach the distance the error propagates
                 try:
                     calc.fire(make_shot(spec), U.Foot(x), U.Foot(x))
+                    # known finding: the start is fine, but the undamped update overshoots AWAY from the sight line, beyond the stored zero, to an
+                    # elevation from which the distance cannot be reached (launch angle of the error's partial trajectory = the failing iterate)
+                    part = getattr(e, 'incomplete_trajectory', None) or []
+                    if part:
+                        it = (part[0].angle >> U.Degree) - look
+                        if abs(it) > abs(stored) + 1e-6 and it * stored > 0:
+                            key = 'zero-overshoot-unreachable-iterate'
                 except pb.RangeError:
                     key = 'zero-bad-stored-start'
             out.append({'msg': f'{label}: target is within reach along the sight line but zeroing failed with {type(e).__name__}: {str(e)[:80]}', 'key': key})
@@ -120,6 +127,8 @@ def plan(tier):
         # the hard corner: steep sight line x long distance x a stored zero that is far off (the search is then convergent but not monotone)
         for look, d, st in itertools.product([55.0, -55.0, 30.0], [1000.0, 1800.0, 3000.0], [20.0, -0.5]):
             cells.append([look, d, st, 'none', 'base', 2.0])
+        cells.append([55.0, 3000.0, 20.0, 'head', 'base', 2.0])     # known finding zero-overshoot-unreachable-iterate
+        cells.append([55.0, 3000.0, 20.0, 'tail', 'base', 2.0])
     else:
         for look, d, st, w in itertools.product(LOOKS, DISTS, STORED, WINDS):
             cells.append([look, d, st, w, 'base', 2.0])
